@@ -309,6 +309,23 @@ func (ex *Exec) havocSet(st *State, mods map[string]bool) {
 		if k == compAlloc {
 			continue
 		}
+		if strings.HasPrefix(k, "?contract:") {
+			// a contracted callee reached inside an uncontracted one
+			ct := ex.V.contracts[strings.TrimPrefix(k, "?contract:")]
+			cs, star := ex.V.contractComps(ct)
+			if star {
+				for _, c := range sortedKeys(ex.V.compSorts) {
+					if c == compAlloc || strings.HasPrefix(c, "LK:") || strings.HasPrefix(c, "LA:") || strings.HasPrefix(c, "G:") {
+						continue
+					}
+					ex.havoc(st, c)
+				}
+			}
+			for _, c := range sortedKeys(cs) {
+				ex.havoc(st, c)
+			}
+			continue
+		}
 		if strings.HasSuffix(k, ".*") && strings.HasPrefix(k, "F:") {
 			pfx := strings.TrimSuffix(k, "*")
 			for _, c := range sortedKeys(ex.V.compSorts) {
